@@ -459,7 +459,7 @@ RULE = ('for each of 13 small programs (first builds and rebuilds of a chain, a 
         'default rule, a 6-leaf fan at -j3, a build with a failing node, a first target in an existing database) an LD_PRELOAD shim counts the '
         'state-changing libc calls (rename, unlink, create/truncating open, write/pwrite to regular files incl. the SQLite database, WAL and '
         'log files, ftruncate, mkdir) of all redo processes and SIGKILLs the calling process (mode self) or its whole process group (mode group) '
-        'immediately before call number p; every p (quick: every third, fewer programs) x both modes, each from a fresh replayed pre-history. '
+        'immediately before call number p; every p (quick: every third plus every call on a target or its temporary file, fewer programs) x both modes, each from a fresh replayed pre-history. '
         'Recovery protocol: redo-ifchange (no clean-up) must finish, not be stuck, not panic, exit 0, leave every target equal to the oracle, '
         'not call an untouched file hand-edited; then every source is edited and the same is required again; integrity_check; no *.redo.tmp. '
         'Double kills: the recovery run itself is killed before a random call of its own (40 quick / 1500 thorough combinations), then a second recovery is judged the same way. Plus random-time whole-tree kills. Generated programs (120 quick / 4 000 thorough; the program generator of the history checks: default rules, checksummed and always targets, dynamic dependency lists, ifcreate watchers, outputs that are symbolic links, dependencies through a symlinked directory; no failing scripts): full build, 1-3 edits (sources, rules, dependency lists, watched paths, removed targets), a rebuild at -j1/-j3 killed before a random call, recovery and a further edit judged by the content oracle of the program. Non-trivial: the kill really happened. Distinct: (program, mode, point number).')
@@ -486,6 +486,13 @@ def main(tier):
                 if quick and (p + (0 if mode == 'self' else 1)) % 2:
                     continue
                 items.append((n, p, mode))
+        if quick:
+            # calls on the targets themselves and on their temporary files (the rename into place above all) are always taken
+            for p, pt in enumerate(pts, 1):
+                if pt[2] in ('target', 'target-tmp'):
+                    for mode in ('self', 'group'):
+                        if (n, p, mode) not in items:
+                            items.append((n, p, mode))
     # the recovery run is killed as well (at a random call of its own), then a second recovery is judged
     for i in range(40 if quick else 1500):
         n = rnd.choice(names)
